@@ -212,6 +212,9 @@ TLoad ==
 TEnd == /\ l <= N /\ Ev.e = "End" /\ l' = l + 1 /\ UNCHANGED <<vars, drift, stored, dx>>
         /\ bad' = Note(bad, IF Len(Ev.allocerrs) > 0 THEN "C04:the allocator reports: " \o Ev.allocerrs[1]
                             ELSE IF Ev.live # 0 THEN "C07:blocks are still allocated after Close returned (leak)" ELSE "", "BAD")
+(* the driver process died on freed memory inside one of the library's own goroutines (attributed by the parent process) *)
+TFault == /\ l <= N /\ Ev.e = "Fault" /\ l' = l + 1 /\ UNCHANGED <<vars, drift, stored, dx>>
+          /\ bad' = Note(bad, "C04:" \o Ev.msg, "BAD")
 (* a panic raised by a legal call sequence is behaviour of the real code (driver: guarded()) *)
 TPanic == /\ l <= N /\ Ev.e = "Panic" /\ l' = l + 1 /\ UNCHANGED <<vars, drift, stored, dx>>
           /\ bad' = Note(bad, "PANIC:the call panicked: " \o Ev.msg \o " (" \o Ev.where \o ")", "BAD")
@@ -219,7 +222,7 @@ TDone == l = N + 1 /\ UNCHANGED tvars
 
 TNext == \/ TReset \/ TPut \/ TDelete \/ TGetNode \/ TNewSnapshot \/ TOpen \/ TCloseSnap \/ TGC \/ TGCUnlink
          \/ TIterNew \/ TIterSetRate \/ TIterSeek \/ TIterSeekFirst \/ TIterNext \/ TIterRefresh \/ TIterClose
-         \/ TVisit \/ TStoreBegin \/ TStore \/ TLoad \/ TEnd \/ TPanic \/ TDone
+         \/ TVisit \/ TStoreBegin \/ TStore \/ TLoad \/ TEnd \/ TFault \/ TPanic \/ TDone
 TSpec == TInit /\ [][TNext]_tvars
 Good == bad = ""
 =============================================================================
